@@ -315,6 +315,9 @@ def action_sites(F, f, action):
         if '<' in spec:
             spec, ga = spec[:-1].split('<', 1)
         return [bi for bi, t in f.calls() if _matches(t, spec, ga)]
+    if action.startswith('write:'):
+        owner, field = action[6:].rsplit('.', 1)
+        return sorted(set(bi for bi, si, pl, rv, ln in f.stmts() if core.write_target(f, pl) == (owner, field)))
     if action == 'err':
         out = set()
         for bi, si, pl, rv, ln in f.stmts():
@@ -344,16 +347,19 @@ def check_guards(ctx, rid, prop):
             continue
         found += 1
         ignore = set(e.get('ignore', []))
-        got = sorted(sorted(a for a in core.control_atoms(F, f, bi) if a not in ignore) for bi in sites)
+        got = sorted(core.control_terms(F, f, bi) for bi in sites)
         prof = 'rel' if str(getattr(F, 'config', '')).endswith('-rel') else 'dbg'
         want = sorted(sorted(x) for x in e['sites'][prof])
         ok = got == want
         if not ok:
-            # a test moved into a small helper: look through helpers that are not themselves reviewed atoms
-            keep = set(a for x in want for a in x)
-            got2 = sorted(sorted(a for a in core.expand_atoms(F, set(x), keep) if a not in ignore) for x in got)
-            if got2 == want:
-                got, ok = got2, True
+            # a test moved into a small helper: compare the flattened atom sets, looking through helpers that are not
+            # themselves reviewed atoms (the per-switch structure is lost across the helper boundary)
+            def flat(sets):
+                return sorted(sorted(set(a for term in x for a in term.split('&'))) for x in sets)
+            keep = set(a for x in want for term in x for a in term.split('&'))
+            got2 = sorted(sorted(core.expand_atoms(F, set(a for term in x for a in term.split('&')), keep)) for x in got)
+            if got2 == flat(want) and got2 != flat(got):
+                ok = True
         r.check(ok, 'guard|%s|%s' % (e['fn'].replace('proto::streams::', ''), e['action']), f.loc(sites[0]),
                 '%s: %s executes under %s (reviewed: %s). %s' % (e['fn'].split('::')[-1], e['action'], got, want, e['why']))
     r.stat('entries', len(tab))
